@@ -24,7 +24,11 @@ type Case struct {
 	FailErr  *script.ErrSpec `json:"fail_err,omitempty"`
 	// FailNilCtx: the failing middleware returns (nil, err) rather than (ctx, err)
 	FailNilCtx bool `json:"fail_nil_ctx,omitempty"`
-	OptSeed    int  `json:"opt_seed,omitempty"` // order in which the options are applied (middlewares keep theirs)
+	// DeadlineAt >= 0: that middleware returns a context with a deadline (a session lifetime limit);
+	// -1 = none (the zero value of old replay files means middleware 0, hence the +1 encoding below)
+	DeadlineAt int `json:"-"`
+	DeadlineMW int `json:"deadline_mw,omitempty"` // DeadlineAt + 1
+	OptSeed    int `json:"opt_seed,omitempty"`    // order in which the options are applied (middlewares keep theirs)
 }
 
 func table() script.Table {
@@ -45,6 +49,13 @@ func chain(i, conn int) string {
 
 func Run(c Case) core.Result {
 	res := core.Result{}
+	c.DeadlineAt = c.DeadlineMW - 1
+	if c.DeadlineAt >= c.NMW {
+		c.DeadlineAt, c.DeadlineMW = -1, 0
+	}
+	if c.DeadlineAt >= 0 {
+		res.Labels = append(res.Labels, "middleware-sets-a-deadline")
+	}
 	res.Labels = append(res.Labels, fmt.Sprintf("middlewares=%d", c.NMW), "auth="+c.Auth, "term="+c.Term, "end="+c.End)
 	if c.FailAt >= 0 {
 		res.Labels = append(res.Labels, "failing-middleware")
@@ -60,6 +71,9 @@ func Run(c Case) core.Result {
 			if mw.Fail == nil {
 				mw.Fail = &script.ErrSpec{Base: "middleware failed"}
 			}
+		}
+		if i == c.DeadlineMW-1 {
+			mw.Deadline = true
 		}
 		cfg.MWs = append(cfg.MWs, mw)
 	}
@@ -233,8 +247,11 @@ func runConn(env *script.Env, c Case) (sig, msg, inconclusive string) {
 		if !o.TypeMap {
 			return fail("C19/command-context/typemap", "%s(%q): no type map in context", ev.K, ev.Q)
 		}
-		if o.Deadline {
-			return fail("C19/command-context/deadline", "%s(%q): the context carries a deadline although no option configures one: the per-command context must live exactly as long as the command", ev.K, ev.Q)
+		if o.Deadline && c.DeadlineAt < 0 {
+			return fail("C19/command-context/deadline", "%s(%q): the context carries a deadline although nothing configures one: the per-command context must live exactly as long as the command", ev.K, ev.Q)
+		}
+		if !o.Deadline && c.DeadlineAt >= 0 {
+			return fail("C19/command-context/not-derived", "%s(%q): middleware %d returned a context with a deadline, the context of the command reports none: it is not derived from what the middleware chain produced", ev.K, ev.Q, c.DeadlineAt)
 		}
 		if o.Done {
 			return fail("C19/command-context/cancelled-early", "%s(%q): per-command context already cancelled while the callback runs", ev.K, ev.Q)
